@@ -382,7 +382,9 @@ func validateSubpictureParts(parts subpictureParts, format *DecimalFormat) error
 		}
 	}
 
-	exponents := strings.Count(parts.Picture, string(format.ExponentSeparator))
+	// Only an exponent separator between active characters counts.
+	// Elsewhere the character is ordinary text of the prefix or suffix.
+	exponents := strings.Count(parts.Active, string(format.ExponentSeparator))
 	if exponents > 1 {
 		return fmt.Errorf("a subpicture cannot contain more than one exponent separator")
 	}
